@@ -24,10 +24,10 @@ Follow(o) == /\ jobs' = JobsOf(o) /\ waiting' = WaitOf(o) /\ ready' = o.ready
 \* MC_Arbitration explores honest.
 Diag == "VERIF_DIAG" \in DOMAIN IOEnv
 ModelAgrees(J1, W1) ==
-    \/ Cardinality(waiting) > 6
-    \/ \E order \in SetToSeqs(waiting) :
-          LET S == RunRound([J |-> jobs, W |-> waiting], order)
-          IN  S.W = W1 /\ DOMAIN S.J = DOMAIN J1 /\ \A j \in DOMAIN J1 : S.J[j] = J1[j]
+    IF Cardinality(waiting) > 6 THEN TRUE
+    ELSE {order \in (IF waiting = {} THEN {<<>>} ELSE SetToSeqs(waiting)) :
+             LET S == RunRound([J |-> jobs, W |-> waiting], order)
+             IN  S.W = W1 /\ DOMAIN S.J = DOMAIN J1 /\ \A j \in DOMAIN J1 : S.J[j] = J1[j]} # {}
 
 TRound == /\ IsEvent("round")
           /\ LET J1 == JobsOf(Ev.obs)
@@ -36,8 +36,8 @@ TRound == /\ IsEvent("round")
              IN  Expect(RoundOK(jobs, waiting, ready, J1, W1, R1),
                         [brokenLimits |-> BrokenLimits(jobs, ready, J1, R1),
                          failedOrDroppedAlthoughOnlyHeadroomWasMissing |-> BrokenRetry(jobs, waiting, J1, W1)])
-          /\ (Diag => \/ ModelAgrees(JobsOf(Ev.obs), WaitOf(Ev.obs))
-                       \/ (PrintT(<<"DIAG round differs from the transcription", seg, l>>) /\ FALSE))
+          /\ (Diag => IF ModelAgrees(JobsOf(Ev.obs), WaitOf(Ev.obs)) THEN TRUE
+                       ELSE PrintT(<<"DIAG round differs from the transcription", seg, l>>) /\ FALSE)
           /\ Follow(Ev.obs)
 TFilter == /\ IsEvent("filter")
            /\ Expect(DupOK(jobs, Ev.pod, Ev.result), [result |-> ~HasLive(jobs, Ev.pod) /\ Ev.result])
